@@ -53,6 +53,9 @@ class EFLRSetsDict(defaultdict):
             An EFLRSet instance of given subtype and name, registered in the structure.
         """
 
+        if not set_name:
+            set_name = None  # an empty name is no name: such a set is written without one
+
         # dict mapping set names on EFLRSet (subclass) instances
         eflr_set_dict: dict[Union[str, None], AnyEFLRSet] = self[eflr_set_type]
 
